@@ -272,7 +272,7 @@ func printDoc(d *ast.QueryDocument) string {
 }
 
 var DecorKinds = []string{"alias", "aliasSib", "aliasParent", "aliasId", "idAliased", "typename", "fragT", "fragN", "fragAbs", "fragAbsTypename", "absTypenameFrag", "id",
-	"incLit", "skipLitFalse", "skipVar", "incVar", "argVar", "argVarNamedId", "argVarDefault", "argVarNull", "varTwice", "dup", "dupFirst", "sameKeyTwice", "splitKey", "splitKeyFrag", "dupSwapLeaf", "dupDropLeaf", "named", "namedTwice", "opName"}
+	"incLit", "skipLitFalse", "skipVar", "incVar", "argVar", "argVarNamedId", "argVarDefault", "argVarNull", "varTwice", "dup", "dupFirst", "sameKeyTwice", "splitKey", "splitKeyFrag", "dupSwapLeaf", "dupDropLeaf", "named", "namedTwice", "opName", "rootTypename", "rootTypenameAliased"}
 
 // Decorate returns all single-decoration variants of q.
 func Decorate(s *ast.Schema, q string) []Case {
@@ -286,7 +286,7 @@ func Decorate(s *ast.Schema, q string) []Case {
 	n := len(fs)
 	for p := 0; p < n; p++ {
 		for _, k := range DecorKinds {
-			if k == "opName" && p > 0 {
+			if (k == "opName" || k == "rootTypename" || k == "rootTypenameAliased") && p > 0 {
 				continue
 			}
 			d, _ := parser.ParseQuery(&ast.Source{Input: q})
@@ -504,6 +504,11 @@ func Decorate(s *ast.Schema, q string) []Case {
 						ok = appendSibling(&op.SelectionSet, f, func(c *ast.Field) { c.Alias = "b" })
 					}
 				}
+			case "rootTypename":
+				// the operation's own __typename next to the service fields (answered by the gateway itself)
+				op.SelectionSet = append(ast.SelectionSet{&ast.Field{Name: "__typename", Alias: "__typename"}}, op.SelectionSet...)
+			case "rootTypenameAliased":
+				op.SelectionSet = append(op.SelectionSet, &ast.Field{Name: "__typename", Alias: "t"})
 			case "opName":
 				op.Name = "MyOp"
 				opName = "MyOp"
